@@ -157,6 +157,10 @@ func (r *renderer) Render(w io.Writer, source []byte, n ast.Node) error {
 	writer, ok := w.(util.BufWriter)
 	if !ok {
 		writer = bufio.NewWriter(w)
+	} else if _, isBufio := w.(*bufio.Writer); !isBufio {
+		// node renderers do not look at the result of a write; like
+		// bufio.Writer, remember the first failure and report it
+		writer = &stickyErrorWriter{BufWriter: writer}
 	}
 	err := ast.Walk(n, func(n ast.Node, entering bool) (ast.WalkStatus, error) {
 		s := ast.WalkStatus(ast.WalkContinue)
@@ -174,4 +178,55 @@ func (r *renderer) Render(w io.Writer, source []byte, n ast.Node) error {
 		return err
 	}
 	return writer.Flush()
+}
+
+// stickyErrorWriter gives a caller-supplied util.BufWriter the one property
+// of bufio.Writer that rendering relies on: after a failure nothing more is
+// written and every later call, including Flush, returns that failure.
+type stickyErrorWriter struct {
+	util.BufWriter
+	err error
+}
+
+func (w *stickyErrorWriter) Write(p []byte) (int, error) {
+	if w.err != nil {
+		return 0, w.err
+	}
+	n, err := w.BufWriter.Write(p)
+	w.err = err
+	return n, err
+}
+
+func (w *stickyErrorWriter) WriteByte(c byte) error {
+	if w.err != nil {
+		return w.err
+	}
+	w.err = w.BufWriter.WriteByte(c)
+	return w.err
+}
+
+func (w *stickyErrorWriter) WriteRune(r rune) (int, error) {
+	if w.err != nil {
+		return 0, w.err
+	}
+	n, err := w.BufWriter.WriteRune(r)
+	w.err = err
+	return n, err
+}
+
+func (w *stickyErrorWriter) WriteString(s string) (int, error) {
+	if w.err != nil {
+		return 0, w.err
+	}
+	n, err := w.BufWriter.WriteString(s)
+	w.err = err
+	return n, err
+}
+
+func (w *stickyErrorWriter) Flush() error {
+	if w.err != nil {
+		return w.err
+	}
+	w.err = w.BufWriter.Flush()
+	return w.err
 }
